@@ -6,6 +6,7 @@ import unicodedata
 
 from vt import util
 from vt.gen import jast, stmtgen
+from vt.gen import c03_condstore
 from vt.model import interp as M
 
 PID = "C03"
@@ -14,7 +15,9 @@ TECHNIQUE = ("reference-interpreter monitor + metamorphic alpha-renaming over ra
              "trees; divergences classified by delta repair")
 RULE = ("random statement trees (<=25 statements, depth<=4) over a pool of 5 names with "
         "if/for(else,filter,recursive,break/continue)/set/block-set/with/macro/call/filter/"
-        "namespace; each rendered on 3 data sets and compared with vt.model.interp (chained "
+        "namespace, plus directed groups 'nested scope (loop/filter block/block set/with/macro) "
+        "reads a name the program has not touched yet, then an if (with/without elif/else) whose "
+        "branches - some or all - assign it'; each rendered on 3 data sets and compared with vt.model.interp (chained "
         "scopes written from docs/templates.rst), then re-rendered after consistent renamings "
         "(ASCII, Unicode, keyword-like, NFKC-colliding). distinct = distinct statement-kind "
         "skeletons exhibiting at least one of shadowing / conditional assignment / "
@@ -32,12 +35,18 @@ FLOORS = {
               "counters": {"model_compares": 3000, "rename_compares": 1500, "namespace_from_context_compares": 60,
                            "feat_shadowing": 50, "feat_conditional_assignment": 50,
                            "feat_read_outer_in_inner": 50, "feat_closure_capture": 50,
-                           "feat_loop_else": 50, "feat_namespace_write": 30}},
+                           "feat_loop_else": 50, "feat_namespace_write": 30,
+                           "feat_cond_store_after_nested_read": 140,
+                           "feat_cond_store_after_nested_read_every_branch": 70,
+                           "feat_cond_store_after_nested_read_ctx_only": 110}},
     "thorough": {"evaluations": 100000, "distinct": 15000,
                  "counters": {"model_compares": 80000, "rename_compares": 40000, "namespace_from_context_compares": 1500,
                               "feat_shadowing": 1000, "feat_conditional_assignment": 1000,
                               "feat_read_outer_in_inner": 1000, "feat_closure_capture": 1000,
-                              "feat_loop_else": 1000, "feat_namespace_write": 500}},
+                              "feat_loop_else": 1000, "feat_namespace_write": 500,
+                              "feat_cond_store_after_nested_read": 3500,
+                              "feat_cond_store_after_nested_read_every_branch": 1750,
+                              "feat_cond_store_after_nested_read_ctx_only": 2750}},
 }
 
 RENAMINGS = {
@@ -123,13 +132,32 @@ def preload(names):
     return ["if", [[e, []]], None]
 
 
-def repair_late_store(body, names, top=True):
-    """Insert the no-op pre-load at the start of every scope-opening body."""
-    pl = preload(names)
-    out = [pl] if top else []
+def plain_stores(body):
+    """Names assigned by a statement standing directly in `body` (not inside an if branch)."""
+    out = []
+    for s in body:
+        if s[0] in ("set", "setblock", "macro") and s[1] not in out:
+            out.append(s[1])
+    return out
+
+
+def repair_late_store(body, names, top=True, narrow=False):
+    """Insert the no-op pre-load at the start of every scope-opening body.
+
+    narrow=True pre-loads, per scope body, only the names that a statement standing directly
+    in that body assigns unconditionally - the recorded late-store mechanism.  An assignment
+    that only happens inside the branches of an `if` is not part of it: the engine keeps the
+    previous value of such a name visible until a branch has run."""
+    def PL(b):
+        if not narrow:
+            return [preload(names)]
+        mine = [n for n in plain_stores(b) if n in names]
+        return [preload(mine)] if mine else []
+
+    out = PL(body) if top else []
     for s in body:
         k = s[0]
-        R = lambda b, scope: None if b is None else (([pl] if scope else []) + repair_late_store(b, names, False))
+        R = lambda b, scope: None if b is None else ((PL(b) if scope else []) + repair_late_store(b, names, False, narrow))
         if k == "if":
             out.append(["if", [[c, R(b, False)] for c, b in s[1]], R(s[2], False)])
         elif k == "for":
@@ -177,12 +205,22 @@ def check_program(ctx, body, recipe, renamings=("ascii", "unicode", "keywordlike
     bad = agree(mo, eo)
     if bad:
         names = all_names(body)
+        eo1, src1 = engine_render(repair_late_store(body, names, narrow=True), data)
+        ctx.count("delta_repairs_tried")
+        if agree(mo, eo1) is None:
+            ctx.count("delta_repair_plain_store_agrees")
+            ctx.violation("late-store-hides-outer-value",
+                          f"{bad}; agrees after pre-loading, at the start of each scope, the names "
+                          f"that scope assigns unconditionally | src={src!r}", case)
+            return
         rep = repair_late_store(body, names)
         eo2, src2 = engine_render(rep, data)
-        ctx.count("delta_repairs_tried")
         if agree(mo, eo2) is None:
-            ctx.violation("late-store-hides-outer-value",
-                          f"{bad}; agrees after pre-loading names at scope starts | src={src!r}", case)
+            # pre-loading helps, but not for a name with a plain assignment at its level: the
+            # value is hidden ahead of an assignment that only happens inside if-branches
+            ctx.violation("store-in-if-branches-hides-outer-value",
+                          f"{bad}; agrees only after pre-loading ALL names at scope starts (not just "
+                          f"the unconditionally assigned ones) | src={src!r}", case)
         else:
             ctx.violation("scoping:" + first_diff_kind(body, mo, eo), f"{bad} | src={src!r}", case)
         return
@@ -262,9 +300,11 @@ def run(ctx):
     n = 2500 if ctx.tier == "quick" else 120000
     i = 0
     while ctx.more(i, n, floor=100):
-        g = stmtgen.SGen(rng)
+        g = c03_condstore.CondStoreGen(rng)
         body = g.program()
         feats = stmtgen.features(body)
+        for f in c03_condstore.condstore_features(body):
+            ctx.count("feat_" + f)
         for f in feats:
             ctx.count("feat_" + f)
         for f in g.feat:
